@@ -165,12 +165,18 @@ CLAIMED["C06"] = {
             "element in the same order. Composed from stage theorems (cell-local lookups see the same neighbourhood; every "
             "geometric predicate is a function of coordinate differences; Fragment::merge in all cases incl. heading and "
             "distance thresholds; bounding boxes move with their fragments given the invariant that no polygon is empty, "
-            "decided over the regenerated tables and preserved by every merge). Front end (text -> cells) and back end "
-            "(coordinates offset by scale*(k, 2n), canvas grown) are covered by the byte-level end-to-end correspondence at "
-            "offsets up to (400, 200) and by the shift oracle on the implementation (svg(shifted) = svg(original) translated).",
+            "decided over the regenerated tables and preserved by every merge). Front end at the level of rows "
+            "(rows_to_fragments_equivariant: n blank rows in front and every row indented by k blanks, quoted regions "
+            "included, give the moved cells and quoted texts). Last stage: nesting_is_position_independent (the containment "
+            "forest of the moved fragments is the moved forest) and document_of_the_moved_drawing (the document built from the "
+            "moved cells, fragments and groups is the old document with the canvas grown by scale*(k, 2n) cells and exactly "
+            "that offset added to every abscissa/ordinate of every node, in the same order; kinds, classes, sizes, radii, flags, "
+            "texts, style sheet and marker definitions unchanged). Splitting the text into rows and the legend cut-off are "
+            "covered by the byte-level end-to-end correspondence at offsets up to (400, 200) and by the shift oracle on the "
+            "implementation (svg(shifted) = svg(original) translated).",
     "note": "Trusted: Lean kernel (+Mathlib ring); correspondence; f32 absolute-coordinate effects in the implementation "
             "(parry's relative-epsilon point-on-segment test, arc centre ==) are outside the exact model and would surface "
-            "as model/implementation disagreements at large offsets; front-end and back-end equivariance are not theorems.",
+            "as model/implementation disagreements at large offsets; str::lines and the legend cut-off under a shift are not theorems.",
     "technique": "Lean 4 proof (translation equivariance of the whole middle pipeline, composed from stage theorems) + byte-level end-to-end correspondence at large offsets + relational shift oracle",
     "design_ref": "5 (C06)",
 }
